@@ -156,6 +156,10 @@ type scenario struct {
 	// regFail: the k-th Register call is refused by the adjudicator (0: none); a refused call
 	// registered nothing, the obligation to refute stays in force for the next trigger
 	regFail int
+	// late: sub-channel S is locked in the parent's transactions from the start, but it is not
+	// watched until a start step (the client calls Watch on a sub-channel only once its opening
+	// has returned)
+	late bool
 }
 
 // step of a sequential history: Kind in {pub, stop, reg, prog, conc}
@@ -232,6 +236,9 @@ func exec(t *testing.T, ssc schedrun.Scenario, o vsched.Options) (*vsched.Sched,
 		}
 		w.pubs = append(w.pubs, pubRec{"P", sc.p0, 0, 0})
 		for _, n := range subNames {
+			if sc.late {
+				continue
+			}
 			s0 := tx(n, 0)
 			pubs[n], evs[n], err = wt.StartWatchingSubChannel(ctx, pp.ID(), channel.SignedState{Params: subParams[n], State: s0.State, Sigs: s0.Sigs})
 			if err != nil {
@@ -242,6 +249,9 @@ func exec(t *testing.T, ssc schedrun.Scenario, o vsched.Options) (*vsched.Sched,
 		chainDone := false
 		for _, n := range append([]string{"P"}, subNames...) {
 			n, st := n, evs[n]
+			if st == nil {
+				continue // (late: not watched yet)
+			}
 			vsched.GoNamed("reader-"+n, func() {
 				if sc.lag {
 					vsched.WaitCond("reader.lag", func() bool { return chainDone })
@@ -487,6 +497,17 @@ func (w *world) check(sc scenario) []verdict {
 		for _, r := range w.regs {
 			if r.at > d.at {
 				after++
+			}
+		}
+		if sc.late {
+			// the tree cannot be registered before the locked sub-channel is known to the watcher;
+			// once it is (a start step that returned), the event must have been refuted
+			known := false
+			for _, st := range w.starts {
+				known = known || (st.ch == "S" && st.err == "" && st.ret > d.at)
+			}
+			if !known {
+				continue
 			}
 		}
 		if !stoppedFor(d.ch, 1<<30, d.at) && ve < lower(d.ch, d.at) && int64(ve) >= maxReg && after == 0 {
@@ -786,6 +807,21 @@ func scenarios(res *report.Result) []schedrun.Scenario {
 		n := fmt.Sprintf("script/p0=%d/%s/fail1", sc.p0, strings.Join(ks, ","))
 		table[n] = sc
 		out = append(out, schedrun.Scenario{Name: n, Mode: explore.Delay, Bound: 0, MaxSteps: 40000, Weight: 1})
+	}
+	// a sub-channel that is locked in the parent but not watched yet when the event arrives
+	for _, sc := range []scenario{
+		{nsubs: 1, late: true, script: []step{{"pub", "P", 1}, {"reg", "P", 0}}},
+		{nsubs: 1, late: true, script: []step{{"pub", "P", 1}, {"reg", "P", 0}, {"start", "S", 0}}},
+		{nsubs: 1, late: true, script: []step{{"pub", "P", 1}, {"reg", "P", 0}, {"start", "S", 1}, {"pub", "S", 2}}},
+		{nsubs: 1, late: true, script: []step{{"reg", "P", 0}, {"pub", "P", 1}, {"start", "S", 0}}},
+	} {
+		var ks []string
+		for _, st := range sc.script {
+			ks = append(ks, st.String())
+		}
+		n := "late/" + strings.Join(ks, ",")
+		table[n] = sc
+		out = append(out, schedrun.Scenario{Name: n, Mode: explore.Delay, Bound: 1, MaxSteps: 40000, Weight: 20, Postpone: true})
 	}
 	// lagging client: 13 events for one channel (the watcher buffers 10 per channel for the client)
 	// are delivered before the client starts to read; all of them must be relayed, in order
